@@ -57,6 +57,16 @@ def gen_cases(tier):
                     add(("core", True, (op, w, ("a", "c"))))
                     add(("core", True, (op, ("a", "c"), w)))
     add(("ext", True, ("**", ("+", ("a", "a"), ("a", "b")), 1)))
+    # flat (unparenthesised) operator chains: the documented precedence and left-associativity decide the tree
+    import itertools as _it
+    from fmc.refmodel import grammar as _G
+
+    for k in (1, 2, 3):
+        atoms_f = ATOMS5 if k < 3 else ["a", "b", "c", "f(x, 2)"]
+        for ops in _it.product(OPS, repeat=k):
+            for ats in _it.product(atoms_f, repeat=k + 1):
+                text = ats[0] + "".join(f" {o} {a}" for o, a in zip(ops, ats[1:]))
+                add(("flat", True, text))
     # (2) group strata
     e_atoms = ["x", "f(x, 2)", "a"]
     g_atoms = ["g", "h"]
@@ -159,8 +169,33 @@ def expand(unit):
         yield [c[0], c[1], c[2]]
 
 
+def flat_ast(text):
+    """Algebra tree of an unparenthesised chain under the documented precedence (reference grammar)."""
+    from fmc.refmodel import grammar as G
+
+    back = {}
+    for i, a in enumerate(sorted(ATOMS5, key=len, reverse=True)):
+        if "(" in a:
+            ph = f"callatom{i}"
+            back[ph] = a
+            text = text.replace(a, ph)
+
+    def conv(n):
+        if n[0] == "atom":
+            return ("a", back.get(n[1], n[1]))
+        if n[0] == "bin":
+            return (n[1], conv(n[2]), conv(n[3]))
+        if n[0] == "grp":
+            return conv(n[1])
+        raise ValueError(n)
+
+    return conv(G.parse(G.tokenize(text)))
+
+
 def formula_of(case):
     stratum, resp, ast = case[0], case[1], tup(case[2])
+    if stratum == "flat":
+        return ("y ~ " if resp else "") + ast
     return ("y ~ " if resp else "") + A.render(ast)
 
 
@@ -197,6 +232,8 @@ def has_nonadd(ast):
 def check_case(case, acc):
     stratum, resp, ast = case[0], case[1], tup(case[2])
     formula = formula_of(case)
+    if stratum == "flat":
+        ast = flat_ast(ast)
     try:
         rterms, ricpt, rgroups = A.model_of(ast)
     except A.Degenerate:
@@ -275,6 +312,8 @@ def _chain_items(n):
 
 def classify(case, clause, sig, detail):
     """Structural class of the input, computed from the case alone."""
+    if case[0] == "flat":
+        return "-"
     ast = tup(case[2])
     for n in _nodes(ast):
         if n[0] == "|":
